@@ -170,17 +170,28 @@ func c51(c *Ctx) {
 	}
 	// the returned slice starts, on the exception path, at 1+len(s)
 	var retIdx []string
-	for _, r := range Returns().F(c.P, psFn) {
-		if sl, ok := r.(*ssa.Return).Results[0].(*ssa.Slice); ok && sl.Low != nil {
-			for _, l := range PhiLeaves(sl.Low) {
-				if bo, ok := l.(*ssa.BinOp); ok && bo.Op == token.ADD {
-					x, y := m1Strip(bo.X), m1Strip(bo.Y)
-					if cl, ok := y.(*ssa.Call); ok && Term(x) == "1" && CalleeName(&cl.Call) == "builtin:len" {
-						retIdx = append(retIdx, "1+len")
-					}
-					if cl, ok := y.(*ssa.Call); ok && Term(x) == "1" && CalleeName(&cl.Call) == "strings.LastIndexByte" {
-						retIdx = append(retIdx, "1+dot")
-					}
+	// (the index domain is cut at on the paths where a rule matched: see c51DefaultRule; the default
+	// rule's 1+LastIndexByte(domain,'.') is not a value of the walk)
+	retLeaves := c51RetLeaves(psFn)
+	anyMatched := false
+	for _, rl := range retLeaves {
+		anyMatched = anyMatched || rl.matched
+	}
+	for _, rl := range retLeaves {
+		if rl.low == nil || anyMatched && !rl.matched {
+			continue // (without any such path — reported by the default rule — every returned index is looked at)
+		}
+		for _, l := range PhiLeaves(rl.low) {
+			if bo, ok := l.(*ssa.BinOp); ok && bo.Op == token.ADD {
+				x, y := m1Strip(bo.X), m1Strip(bo.Y)
+				if _, isCall := y.(*ssa.Call); !isCall {
+					x, y = y, x
+				}
+				if cl, ok := y.(*ssa.Call); ok && Term(x) == "1" && CalleeName(&cl.Call) == "builtin:len" {
+					retIdx = append(retIdx, "1+len")
+				}
+				if cl, ok := y.(*ssa.Call); ok && Term(x) == "1" && CalleeName(&cl.Call) == "strings.LastIndexByte" && len(cl.Call.Args) == 2 && cl.Call.Args[0] != ssa.Value(psFn.Params[0]) {
+					retIdx = append(retIdx, "1+dot")
 				}
 			}
 		}
@@ -266,7 +277,7 @@ func c51(c *Ctx) {
 	if c.Count(ps, noDot, 1, 1) {
 		c.NeverAfter(ps, noDot, Calls("publicsuffix.find"), true)
 	}
-	c.Has(ps, RetTerm(0, "$0[(1+LastIndexByte($0,46)):]"))
+	c51DefaultRule(c, psFn)
 	c.Callers("publicsuffix.find", ps)
 
 	c51find(c)
@@ -283,6 +294,170 @@ func c51(c *Ctx) {
 
 	// ---- exhaustive table checks
 	c51tables(c, k)
+}
+
+// c51RetLeaf is one value the first result of PublicSuffix can take: the start index of the
+// returned tail of domain, with the branch facts of the path it is returned on.
+type c51RetLeaf struct {
+	ret   *ssa.Return
+	val   ssa.Value // the returned string when low == nil (not a tail of domain)
+	low   ssa.Value // domain[low:]
+	facts []Fact
+	// matched: the facts of the path establish low != len(domain) (a rule matched; low is the walk's suffix index)
+	matched bool
+}
+
+// c51RetLeaves expands the first result of every return of PublicSuffix into its leaves. A merge
+// (of the returned string or of the index it is cut at) counts once per incoming value, with the
+// facts of the edge it arrives on, so `if c { return d[a:] }; return d[b:]`, `i := b; if c { i = a };
+// return d[i:]` and `r := d[b:]; if c { r = d[a:] }; return r` are the same to it. The expansion of an
+// index stops at the value that the path's facts compare unequal to len(domain): that is the suffix
+// index the walk computed, whatever it is merged from.
+func c51RetLeaves(fn *ssa.Function) []c51RetLeaf {
+	var out []c51RetLeaf
+	lenDomain := Lin{Coef: map[string]int64{"len($0)": 1}}
+	implied := func(fs []Fact, spec Atom) bool {
+		for _, f := range fs {
+			if Implies(f.Atom, spec) {
+				return true
+			}
+		}
+		return false
+	}
+	for _, in := range Returns().F(nil, fn) {
+		r := in.(*ssa.Return)
+		if len(r.Results) == 0 {
+			continue
+		}
+		var expandLow func(v ssa.Value, fs []Fact, seen map[ssa.Value]bool, depth int)
+		expandLow = func(v ssa.Value, fs []Fact, seen map[ssa.Value]bool, depth int) {
+			if implied(fs, Atom{Kind: NE, L: Linearize(v).Sub(lenDomain)}) {
+				out = append(out, c51RetLeaf{ret: r, low: v, facts: fs, matched: true})
+				return
+			}
+			ph, isPhi := m1Strip(v).(*ssa.Phi)
+			if !isPhi || seen[ph] || depth > 6 {
+				out = append(out, c51RetLeaf{ret: r, low: v, facts: fs})
+				return
+			}
+			seen[ph] = true
+			for i, e := range ph.Edges {
+				if i < len(ph.Block().Preds) {
+					expandLow(e, append(append([]Fact{}, fs...), EdgeFacts_h2server(ph.Block().Preds[i], ph.Block())...), seen, depth+1)
+				}
+			}
+			delete(seen, ph)
+		}
+		var expand func(v ssa.Value, fs []Fact, seen map[ssa.Value]bool, depth int)
+		expand = func(v ssa.Value, fs []Fact, seen map[ssa.Value]bool, depth int) {
+			if ph, ok := v.(*ssa.Phi); ok && !seen[ph] && depth <= 6 {
+				seen[ph] = true
+				for i, e := range ph.Edges {
+					if i < len(ph.Block().Preds) {
+						expand(e, append(append([]Fact{}, fs...), EdgeFacts_h2server(ph.Block().Preds[i], ph.Block())...), seen, depth+1)
+					}
+				}
+				delete(seen, ph)
+				return
+			}
+			if sl, ok := v.(*ssa.Slice); ok && sl.Low != nil && sl.High == nil && sl.Max == nil && len(fn.Params) == 1 && sl.X == ssa.Value(fn.Params[0]) {
+				expandLow(sl.Low, fs, map[ssa.Value]bool{}, 0)
+				return
+			}
+			out = append(out, c51RetLeaf{ret: r, val: v, facts: fs})
+		}
+		expand(r.Results[0], FactsAtInstr(r), map[ssa.Value]bool{}, 0)
+	}
+	return out
+}
+
+// c51DefaultRule: the prevailing rule when no rule of the list matched is "*": the public suffix
+// is the last label. Stated over the leaves of the returned value: apart from the IP-literal
+// short-circuit, PublicSuffix returns a tail domain[i:] of its argument, and
+//   - i is the walk's suffix index only on paths where that index != len(domain) (some rule matched);
+//   - i is 1+LastIndexByte(domain,'.') only on paths where the suffix index is still len(domain)
+//     (the initial value: no rule matched), and that way of returning exists;
+//   - nothing else is returned.
+func c51DefaultRule(c *Ctx, fn *ssa.Function) {
+	const ps = "publicsuffix.PublicSuffix"
+	const rule = "default-rule"
+	construct := ps + ": the last label is returned exactly when no rule matched (suffix index still len(domain)), domain[suffix:] otherwise"
+	leaves := c51RetLeaves(fn)
+	lenDomain := Lin{Coef: map[string]int64{"len($0)": 1}}
+	ipAtom, err := c.P.ParseAtom("ParseAddr($0)#1 == nil")
+	if err != nil {
+		c.Undecided(rule, construct, err.Error())
+		return
+	}
+	implied := func(fs []Fact, spec Atom) bool {
+		for _, f := range fs {
+			if Implies(f.Atom, spec) {
+				return true
+			}
+		}
+		return false
+	}
+	var suffixes []ssa.Value // the suffix indices returned under "a rule matched"
+	for _, l := range leaves {
+		if l.matched {
+			suffixes = append(suffixes, l.low)
+		}
+	}
+	nDefault, nMatched, bad := 0, 0, ""
+	var badPos token.Pos
+	fail := func(l c51RetLeaf, why string) {
+		if bad == "" {
+			bad, badPos = why, l.ret.Pos()
+		}
+	}
+	for _, l := range leaves {
+		switch {
+		case l.low == nil:
+			if len(fn.Params) == 1 && l.val == ssa.Value(fn.Params[0]) && implied(l.facts, ipAtom) {
+				continue // the IP-literal short-circuit (guarded by its own rule)
+			}
+			fail(l, "the value `"+Term(l.val)+"` is returned, which is not a tail domain[i:] of the argument; facts on that path: {"+c51FactText(l.facts)+"}")
+		case l.matched:
+			nMatched++
+		default:
+			li := Linearize(l.low)
+			if !(li.K == 1 && len(li.Coef) == 1 && li.Coef["LastIndexByte($0,46)"] == 1) {
+				fail(l, "domain["+Term(l.low)+":] is returned on a path that neither establishes that index != len(domain) (a rule matched) nor cuts at 1+LastIndexByte(domain,'.') (the default rule); facts on that path: {"+c51FactText(l.facts)+"}")
+				continue
+			}
+			// the default value: only where the walk's suffix index is still len(domain)
+			under := false
+			for _, s := range suffixes {
+				if implied(l.facts, LEZero(lenDomain.Sub(Linearize(s)))) {
+					under = true
+				}
+			}
+			if !under {
+				fail(l, "the last label domain[1+LastIndexByte(domain,'.'):] is returned on a path that does not establish suffix index == len(domain) (no rule matched); facts on that path: {"+c51FactText(l.facts)+"}")
+				continue
+			}
+			nDefault++
+		}
+	}
+	if bad == "" && nMatched == 0 {
+		bad, badPos = "no return of domain[suffix:] under suffix != len(domain)", fn.Pos()
+	}
+	if bad == "" && nDefault == 0 {
+		bad, badPos = "the default rule is gone: no path returns domain[1+LastIndexByte(domain,'.'):] under suffix index == len(domain)", fn.Pos()
+	}
+	c.Check(bad == "", rule, construct, badPos, fmt.Sprintf("%d path(s) return the last label, %d domain[suffix:]", nDefault, nMatched), bad)
+}
+
+func c51FactText(fs []Fact) string {
+	var ss []string
+	seen := map[string]bool{}
+	for _, f := range fs {
+		if t := f.Atom.String(); !seen[t] {
+			seen[t] = true
+			ss = append(ss, t)
+		}
+	}
+	return strings.Join(ss, " ; ")
 }
 
 // m1RetLeafTerms renders the phi leaves of the second result of every return.
